@@ -12,10 +12,15 @@ def impl(case):
     import numpy as np
     from pyrates.backend.base.base_backend import DDEHistory
     from pyr import fracs
-    dt = np.float64 if case["dtype"] == "float64" else np.float32
+    dt = {"float64": np.float64, "float32": np.float32, "complex128": np.complex128}[case["dtype"]]
     shape = tuple(case["shape"])
+    cplx = case["dtype"] == "complex128"
     def arr(v):
-        return np.array([float(Fr(x)) for x in v], dtype=dt).reshape(shape)
+        f = [float(Fr(x)) for x in v]
+        if cplx:                      # a complex vector of k entries is written as k real parts followed by k imaginary parts
+            k = len(f) // 2
+            f = [complex(a, b) for a, b in zip(f[:k], f[k:])]
+        return np.array(f, dtype=dt).reshape(shape)
     cls = DDEHistory
     if case["cap"] is None and case["init_cap"] != 1024:
         cls = type("H", (DDEHistory,), {"_INITIAL_CAPACITY": case["init_cap"]})
@@ -30,9 +35,13 @@ def impl(case):
             except IndexError:
                 outs.append("refused")
         elif op[0] == "q":
-            r = h(float(Fr(op[1])))
-            assert np.asarray(r).shape == shape, (np.asarray(r).shape, shape)
-            outs.append(fracs(r))
+            r = np.asarray(h(float(Fr(op[1]))))
+            if r.shape != shape or r.dtype != np.dtype(dt):
+                outs.append(["wrong-shape-or-dtype", str(r.shape), str(r.dtype)])    # Spec: a query returns a state of the history's shape and dtype
+            elif cplx:
+                outs.append(fracs(r.real) + fracs(r.imag))
+            else:
+                outs.append(fracs(r))
         elif op[0] == "m":           # the caller overwrites an array it passed to update earlier
             if passed:
                 passed[op[1] % len(passed)][...] = 12345.0
@@ -40,18 +49,25 @@ def impl(case):
     return outs
 
 # ---------------------------------------------------------------------------------------------- generator
-def gen_case(rng, big=False):
+WILD_VALUES = [1e16, 1.0, -3.3, 7e-9, 0.1, 123456.789, -1e15, 2.5e-7, 1/3, -0.7, 9007199254740993.0, 0.0]
+WILD_GAPS = [0.1, 0.3, 1e-3, 0.7, 2.2, 1/3]
+
+def gen_case(rng, big=False, wild=False):
+    """wild: arbitrary (non-dyadic, badly scaled) float data with queries only at, before and after record times, where the
+    property demands the stored record *exactly* whatever the rounding of the interpolation formula."""
     shape = rng.choice([[], [1], [2], [3], [2, 2], [1, 3]])
     k = 1
     for s in shape:
         k *= s
-    dtype = rng.choice(["float64", "float64", "float32"])
-    val = lambda: str(Fr(rng.randint(-64, 64), 8))
+    dtype = rng.choice(["float64", "complex128"]) if wild else rng.choice(["float64", "float64", "float32", "complex128"])
+    if dtype == "complex128":
+        k *= 2
+    val = (lambda: str(Fr(rng.choice(WILD_VALUES)))) if wild else (lambda: str(Fr(rng.randint(-64, 64), 8)))
     vec = lambda: [val() for _ in range(k)]
     bounded = (not big) and rng.random() < 0.3
     cap = rng.choice([0, 1, 2, 3, 5, 8]) if bounded else None
     init_cap = 1024 if big else rng.choice([1, 2, 3, 4, 16])
-    t0 = Fr(rng.randint(-16, 16), 4)
+    t0 = Fr(rng.choice([0.0, -0.3, 1.7])) if wild else Fr(rng.randint(-16, 16), 4)
     times, t = [t0], t0
     nops = rng.randint(2500, 3300) if big else rng.randint(3, 60)
     ops = []
@@ -59,17 +75,17 @@ def gen_case(rng, big=False):
         r = rng.random()
         i = rng.randrange(len(times))
         if r < 0.15:
-            return times[0] - Fr(rng.randint(0, 8), 4)
+            return Fr(float(times[0] - Fr(rng.randint(0, 8), 4)))
         if r < 0.3:
-            return times[-1] + Fr(rng.randint(0, 8), 4)
-        if r < 0.5 or len(times) == 1:
+            return Fr(float(times[-1] + Fr(rng.randint(0, 8), 4)))
+        if r < 0.5 or len(times) == 1 or wild:
             return times[i]
         i = rng.randrange(len(times) - 1)
         return times[i] + (times[i + 1] - times[i]) * Fr(rng.randint(0, 8), 8)
     for _ in range(nops):
         r = rng.random()
         if r < (0.97 if big else 0.5):
-            t = t + Fr(1, 8) * 2 ** rng.randint(0, 4)
+            t = Fr(float(t) + rng.choice(WILD_GAPS)) if wild else t + Fr(1, 8) * 2 ** rng.randint(0, 4)
             ops.append(["u", str(t), vec()])
             # a refused update does not enter the record list: track what the spec would accept
             if cap is None or len(times) < max(cap, 1):
@@ -80,7 +96,7 @@ def gen_case(rng, big=False):
             ops.append(["m", rng.randrange(1000)])
     for _ in range(6 if not big else 40):
         ops.append(["q", str(qtime())])
-    return dict(y0=vec(), shape=shape, t0=str(t0), cap=cap, init_cap=init_cap, dtype=dtype, ops=ops)
+    return dict(y0=vec(), shape=shape, t0=str(t0), cap=cap, init_cap=init_cap, dtype=dtype, ops=ops, wild=wild)
 
 def nontrivial(case):
     eff_cap = case["cap"]
@@ -120,7 +136,7 @@ def coq_case(case, outs):
             exp.append("ODone" if r == "done" else "ORefused" if r == "refused" else "OVal []")
         elif o[0] == "q":
             ops.append(f"Query {cq(o[1])}")
-            exp.append(f"OVal {row(r)}" if isinstance(r, list) else "ODone")
+            exp.append(f"OVal {row(r)}" if isinstance(r, list) and not (r and r[0] == "wrong-shape-or-dtype") else "ODone")
     growable = case["cap"] is None
     cap = case["init_cap"] if growable else case["cap"]
     return f"(({row(case['y0'])}, {cq(case['t0'])}, {cnat(cap)}, {cbool(growable)}, {clist(ops)}), {clist(exp)})"
@@ -184,7 +200,8 @@ def check(ctx):
         rp = json.load(open(ctx.replay))
         cases = [rp["case"]] if "case" in rp else []
     else:
-        cases = load_corpus("C19") + [gen_case(ctx.rng) for _ in range(n_small)] + [gen_case(ctx.rng, big=True) for _ in range(n_big)]
+        cases = (load_corpus("C19") + [gen_case(ctx.rng) for _ in range(n_small)] + [gen_case(ctx.rng, wild=True) for _ in range(n_small // 3)]
+                 + [gen_case(ctx.rng, big=True) for _ in range(n_big)])
     outs = run_impl(ctx, "c19", "impl", cases)
     crashed = [i for i, r in enumerate(outs) if isinstance(r, dict)]
     good = [i for i in range(len(cases)) if i not in crashed]
@@ -198,7 +215,7 @@ def check(ctx):
              shrink=lambda c: shrink(ctx, c),
              show=lambda c: (lambda r: dict(implementation_output=r, model_output=model_outputs(ctx, c, r, "show") if not isinstance(r, dict) else None))(fails(ctx, c, "show")[1]))
     nt = {canon(c) for c in cases if nontrivial(c)}
-    hist = dict(bounded=sum(1 for c in cases if c["cap"] is not None), float32=sum(1 for c in cases if c["dtype"] == "float32"),
+    hist = dict(wild_float_data=sum(1 for c in cases if c.get("wild")), complex128=sum(1 for c in cases if c["dtype"] == "complex128"), bounded=sum(1 for c in cases if c["cap"] is not None), float32=sum(1 for c in cases if c["dtype"] == "float32"),
                 with_growth=sum(1 for c in cases if c["cap"] is None and sum(1 for o in c["ops"] if o[0] == "u") + 1 > c["init_cap"]),
                 real_capacity_1024=sum(1 for c in cases if c["init_cap"] == 1024 and c["cap"] is None),
                 ops=dict(update=sum(1 for c in cases for o in c["ops"] if o[0] == "u"), query=sum(1 for c in cases for o in c["ops"] if o[0] == "q"),
@@ -208,7 +225,9 @@ def check(ctx):
     sample = dict(cases[0], ops=cases[0]["ops"][:8])
     write_evidence(ctx, evaluations=len(cases), distinct_nontrivial=len(nt),
                    rule="random scripts of update/query/caller-mutation operations on DDEHistory (capacities 1..16 and the real 1024, bounded "
-                        "histories, shapes (),(k,),(k,m), float64/float32, dyadic data so that float arithmetic is exact); a script is non-trivial "
+                        "histories, shapes (),(k,),(k,m), float64/float32/complex128 with the result's shape and dtype checked, dyadic data so that float "
+                        "arithmetic is exact; plus a stream of badly scaled non-dyadic floats queried only at/before/after record times, where the stored "
+                        "record must come back exactly); a script is non-trivial "
                         "when it crosses >= 1 growth event or queries strictly between two records; distinct = distinct canonical JSON",
                    samples=[sample], extra=dict(input_distribution=hist, impl_vs_model_mismatches=len(badI), impl_vs_spec_mismatches=len(badS)),
                    trusted_base=["numpy float64/float32 arithmetic is exact on the generated dyadic data (checked: results are compared as exact rationals)"],
